@@ -502,7 +502,9 @@ def check_outcome(ctx, contract, env0, env, expected, out, frame_writes):
                 for p in sorted(contract.modifies):
                     oblige_equal(ctx, '%s::spec.final[%s]%s' % (short, p, tag), env[p], expected.env[p])
     else:
-        if out.kind == 'raise':
+        if out.kind == 'raise' and out.exc in getattr(contract, 'may_raise', ()):
+            pass        # permitted, not required (depends on abstracted content)
+        elif out.kind == 'raise':
             cond = contract.raises.get(out.exc)
             if cond is None:
                 ctx.oblige('%s::raises.none[%s]%s' % (short, out.exc, tag), False,
@@ -522,7 +524,9 @@ def check_outcome(ctx, contract, env0, env, expected, out, frame_writes):
         elif isinstance(origin, str) and origin.startswith('global:'):
             ctx.oblige('%s::frame[%s]%s' % (short, origin, tag), False, kind='frame', info={'write': desc})
     # --- property-level clauses ---
-    if out.kind == 'raise' and expected is None and not contract.raises and contract.posts:
+    if out.kind == 'raise' and expected is None and out.exc in getattr(contract, 'may_raise', ()):
+        pass
+    elif out.kind == 'raise' and expected is None and not contract.raises and contract.posts:
         pass    # already reported through ::raises.none
     else:
         for name, fn in contract.posts:
